@@ -148,12 +148,66 @@ PIPELINES.append(Pipeline('U4_double2string', units=[U_d2s], prelude=D2S_PRELUDE
     replay=('c17_geom', lambda cex, o: ['search']), noflags=['--conversion-check'],
     note='all array accesses are inside the local buffer for every double (up to 309 integer digits) and every precision 0..17; relative to the assumed shape of the snprintf output'))
 
+# ---- WKB: every geometry starts in an empty output buffer with its header; count fields are patched inside the buffer ------------------------------
+WKB = 'include/osmium/geom/wkb.hpp'
+
+
+def wkb_prelude(repo):
+    src = cx.preprocess(cx.strip_comments(open(repo + '/' + WKB).read()))
+    got = [m[1] for m in cx.extract_members(src, 'WKBFactoryImpl')]
+    for need in ('m_data', 'm_srid', 'm_wkb_type', 'm_linestring_size_offset', 'm_multipolygon_size_offset', 'm_polygon_size_offset', 'm_ring_size_offset', 'm_polygons', 'm_rings', 'm_points'):
+        if need not in got:
+            raise cx.ExtractError('WKBFactoryImpl::%s missing' % need)
+    return (cx.extract_enum(repo, WKB, 'wkb_type') + cx.extract_enum(repo, WKB, 'out_type') + '''
+typedef uint32_t wkbGeometryType;
+/* std::string m_data: only its length is kept (the bytes are raw copies of the values pushed) */
+typedef struct vstr { size_t size; } vstr;
+struct WKBFactoryImpl { vstr m_data; uint32_t m_points; int m_srid; wkb_type m_wkb_type; out_type m_out_type; size_t m_linestring_size_offset; size_t m_polygons; size_t m_rings;
+                        size_t m_multipolygon_size_offset; size_t m_polygon_size_offset; size_t m_ring_size_offset; };
+/* str_push<T>(str, value): appends sizeof(T) bytes */
+void vstr_append_n(vstr* s, size_t n) { __CPROVER_assert(s->size <= SIZE_MAX - n, "model: string length"); s->size += n; }
+void vstr_clear(vstr* s) { s->size = 0; }
+/* writing a 4-byte count at &m_data[offset]: inside the string */
+void vstr_patch4(const vstr* s, size_t offset) { __CPROVER_assert(offset <= s->size && s->size - offset >= 4, "set_size: the count field lies inside the output buffer"); }
+#define HDR(f) ((size_t)((f)->m_wkb_type == wkb_type_ewkb ? 9 : 5))   /* byte order + type (+ SRID) */
+''')
+
+
+PUSH = [(r'str_push\((\w+), wkb_byte_order_type::\w+\);', r'vstr_append_n(&\1, 1);', '?'), (r'str_push\((\w+), type \| wkbSRID\);', r'vstr_append_n(&\1, 4);', '?'), (r'str_push\((\w+), type\);', r'vstr_append_n(&\1, 4);', '?'),
+        (r'str_push\((\w+), m_srid\);', r'vstr_append_n(&\1, 4);', '?'), (r'str_push\((\w+), static_cast<uint32_t>\(0\)\);', r'vstr_append_n(&\1, 4);', '?'),
+        (r'header\(m_data, ', 'header(&m_data, ', '?'), (r'm_data\.clear\(\);', 'vstr_clear(&m_data);', '?'), (r'm_data\.size\(\)', 'm_data.size', '?'), (r'\bwkb(LineString|Polygon|MultiPolygon|Point)\b', r'((wkbGeometryType)0 /* wkb\1 */)', '?')]
+U_hdr = Unit(WKB, 'header', cls='WKBFactoryImpl', selftype='const struct WKBFactoryImpl', params=['vstr* str_p', 'wkbGeometryType type', 'bool add_length'], enums=['wkb_type'],
+             pre=[(r'\bstr\.size\(\)', 'str_p->size'), (r'str_push\(str, ', 'str_push(*str_p, ')] + [(a.replace(r'\((\w+), ', r'\(\*(\w+), '), b.replace(r'&\1', r'\1'), '?') for a, b, _ in PUSH[:5]])
+U_setsize = Unit(WKB, 'set_size', cls='WKBFactoryImpl',
+                 pre=[(r'std::copy_n\(reinterpret_cast<const char\*>\(&s\), sizeof\(uint32_t\), &m_data\[offset\]\);', 'vstr_patch4(&m_data, offset); (void)s;')])
+WKB_STARTS = []
+for nm, extra in (('linestring_start', 'self->m_linestring_size_offset == HDR(self) && self->m_data.size == HDR(self) + 4'),
+                  ('polygon_start', 'self->m_ring_size_offset == HDR(self) + 4 && self->m_data.size == HDR(self) + 8'),
+                  ('multipolygon_start', 'self->m_multipolygon_size_offset == HDR(self) && self->m_data.size == HDR(self) + 4 && self->m_polygons == 0')):
+    u = Unit(WKB, nm, cls='WKBFactoryImpl', enums=['wkb_type'], pre=PUSH)
+    PIPELINES.append(Pipeline('U5_wkb_' + nm, units=[U_hdr, U_setsize, u], prelude=wkb_prelude, contracts={'WKBFactoryImpl_' + nm: [
+        ('pre:ANY state of the factory - the previous geometry may have been abandoned by an exception half way', 'requires',
+         'verif_exc == 0 && __CPROVER_is_fresh(self, sizeof(*self)) && self->m_data.size <= (1u << 30) && (self->m_wkb_type == wkb_type_wkb || self->m_wkb_type == wkb_type_ewkb)'),
+        ('post:the output buffer holds exactly the header of the new geometry, the count field is the one that will be patched', 'ensures', 'verif_exc == 0 && ' + extra),
+        ('frame', 'assigns', 'verif_exc, self->m_data.size, self->m_linestring_size_offset, self->m_multipolygon_size_offset, self->m_ring_size_offset, self->m_polygons')]},
+        enforce='WKBFactoryImpl_' + nm, harness='void harness(void) { struct WKBFactoryImpl* f; WKBFactoryImpl_%s(f); __CPROVER_assert(0, "canary"); }' % nm, noflags=['--conversion-check'],
+        replay=('c17_geom', lambda cex, o: ['wkbreuse']), note='length-only model of the output string; header() and set_size() are inlined real bodies'))
+U_mpps = Unit(WKB, 'multipolygon_polygon_start', cls='WKBFactoryImpl', enums=['wkb_type'], pre=PUSH[5:])  # header(&m_data ..), clear, size, geometry type constants
+PIPELINES.append(Pipeline('U5_wkb_multipolygon_polygon_start', units=[U_hdr, U_mpps], prelude=wkb_prelude, contracts={'WKBFactoryImpl_multipolygon_polygon_start': [
+    ('pre', 'requires', 'verif_exc == 0 && __CPROVER_is_fresh(self, sizeof(*self)) && self->m_data.size <= (1u << 30) && self->m_polygons < (1u << 30) && (self->m_wkb_type == wkb_type_wkb || self->m_wkb_type == wkb_type_ewkb)'),
+    ('post:a polygon header is appended; its count field is remembered; the polygon is counted', 'ensures',
+     'self->m_data.size == __CPROVER_old(self->m_data.size) + HDR(self) + 4 && self->m_polygon_size_offset == __CPROVER_old(self->m_data.size) + HDR(self) && self->m_polygons == __CPROVER_old(self->m_polygons) + 1 && self->m_rings == 0'),
+    ('frame', 'assigns', 'self->m_data.size, self->m_polygon_size_offset, self->m_polygons, self->m_rings')]},
+    enforce='WKBFactoryImpl_multipolygon_polygon_start', harness='void harness(void) { struct WKBFactoryImpl* f; WKBFactoryImpl_multipolygon_polygon_start(f); __CPROVER_assert(0, "canary"); }',
+    noflags=['--conversion-check'], replay=('c17_geom', lambda cex, o: ['wkbreuse'])))
+
 TRUSTED = ['the projection rejects invalid locations (Location::lon()/lat() throw invalid_location) and the output implementation appends each point it is given (assumed contract of the ghost sink)']
 ASSUMPTIONS = ['node reference lists of at most 5000 entries (object-size bound; the loop contract makes the proof independent of it)']
 NOT_DECIDED = ['WKB/WKT/GeoJSON byte layout and count patching', 'reverse iteration', 'Mercator values inside the exports (C18)', 'create_multipolygon ring/polygon bracketing']
 LEVEL_TEXT = ('Proof (unbounded loop contracts, sequences of any length, arbitrary locations) for the point selection of the geometry factory in unique mode - fill_linestring_unique, '
               'fill_polygon_unique and add_points (one multipolygon ring): a point is written exactly when it differs from its predecessor, the first point of every sequence always, the '
               'returned count equals the number of points written, the last point written is the last location of the input, and every undefined or invalid location in the input leads to '
-              'invalid_location instead of being dropped; double2string stays inside its buffer for every snprintf result within the contract, strips exactly the trailing zeros of the fraction and appends the rest.')
+              'invalid_location instead of being dropped; double2string stays inside its buffer for every snprintf result within the contract, strips exactly the trailing zeros of the fraction and appends the rest. WKB: linestring_start, polygon_start and multipolygon_start leave exactly the header of the new geometry in the output buffer whatever the '
+              'factory held before (a geometry abandoned by an exception), remember the count field that will be patched, and set_size patches inside the buffer; multipolygon_polygon_start appends a polygon header and counts it.')
 LEVEL_NOTE = ('Trusted: CBMC, extraction rules, the ghost sink standing for projection + output implementation (rejects invalid locations, appends the rest). Forward iteration only (TIter := const NodeRef*). '
-              'Not decided: byte layout and count patching of WKB/WKT/GeoJSON, reverse iteration, ring/polygon bracketing of create_multipolygon, Mercator values (C18).')
+              'Assumed: length-only model of the WKB output string. Not decided: the bytes written by WKB (raw copies) and the text of WKT/GeoJSON, ring counts across create_multipolygon, reverse iteration, ring/polygon bracketing of create_multipolygon, Mercator values (C18).')
